@@ -154,6 +154,15 @@ Theorem C07_fresh_shape : forall fs dest nm ln, get_new_name fs dest nm = Some l
 Proof. exact fresh_shape. Qed.
 Print Assumptions C07_fresh_shape.
 
+(* ... and whatever bytes the validated name consists of (fmt verbs included), the fresh name is
+   the name or name "." decimal(counter), a single clean path element again *)
+Theorem C07_fresh_name_form : forall fs dest nm ln,
+  valid_name nm = true -> get_new_name fs dest nm = Some ln ->
+  good ln /\ (ln = nm \/ exists i, (i < N.to_nat names_max_tries)%nat /\
+                 ln = nm ++ [dot] ++ decimal (N.of_nat i) /\ Forall digit (decimal (N.of_nat i))).
+Proof. exact fresh_name_form. Qed.
+Print Assumptions C07_fresh_name_form.
+
 (* the candidate list really is name, name.0, ..., name.999, and the decimal printer agrees
    with Coq's own on every index used *)
 Theorem C07_candidates : (length (candidates [120]) = 1001%nat /\
